@@ -244,7 +244,7 @@ class C07(Prop):
 
 class C08(Guarded):
     cmd = "c08"
-    cases = {"quick": 4000, "thorough": 2000000}
+    cases = {"quick": 12000, "thorough": 2000000}
     rule = ("3-8 formulas per workbook generated from an AST grammar (depth 1-4: operators, unary signs, percent, nested functions, unions, "
             "intersections, literals, relative/absolute/mixed references, ranges, whole rows/columns, qualified and quoted qualifiers, names, "
             "array constants, structured and external references) plus 0-3 defined names, on 3-4 sheets; 1-6 workbook-level inserts/removes; "
